@@ -500,6 +500,8 @@ class Sym:
         import numpy as np
         if method == "__call__" and not kwargs and all(isinstance(x, (Sym, int, float, Fraction)) for x in inputs):
             name = ufunc.__name__
+            # numpy scalars (np.float64 is a float) would dispatch `a + b` back to this method for ever
+            inputs = tuple(x.item() if isinstance(x, np.generic) else x for x in inputs)
             a = inputs[0]
             b = inputs[1] if len(inputs) > 1 else None
             one = {"ceil": lambda: math.ceil(a), "floor": lambda: math.floor(a), "absolute": lambda: abs(a),
